@@ -1,6 +1,7 @@
 package an
 
 import (
+	"go/token"
 	"go/types"
 	"strings"
 
@@ -20,6 +21,10 @@ type EffectSummary struct {
 	Keyed   []string
 	Pure    []string
 	memo    map[*ssa.Function]string
+	// ordParams[fn]: when fn is "ordered" and every ordered effect lands on
+	// objects passed in through these parameter positions (0 = receiver);
+	// absent = the function has an ordered effect on something else.
+	ordParams map[*ssa.Function]map[int]bool
 }
 
 var stdPurePkgs = []string{"strings", "strconv", "math", "math/big", "math/bits", "sort", "encoding/hex", "encoding/binary", "crypto/sha256", "crypto/sha512",
@@ -59,6 +64,9 @@ func (e *EffectSummary) class(fn *ssa.Function, depth int) string {
 	switch {
 	case matchName(e.Ordered, name):
 		e.memo[fn] = "ordered"
+		if fn.Signature.Recv() != nil {
+			e.setOrdParams(fn, map[int]bool{0: true})
+		}
 		return "ordered"
 	case matchName(e.Keyed, name):
 		e.memo[fn] = "keyed"
@@ -91,6 +99,22 @@ func (e *EffectSummary) class(fn *ssa.Function, depth int) string {
 	}
 	e.memo[fn] = "pure" // optimistic for recursion
 	res := "pure"
+	global := false         // an ordered effect on something that is not a parameter
+	mine := map[int]bool{} // parameters of fn whose objects receive ordered effects
+	// sinkArg: the ordered effect on object v is visible to fn's callers
+	// (records through which parameter, or sets global).
+	sinkArg := func(v ssa.Value) bool {
+		kind, idx, _ := ObjOrigin(v, 0)
+		switch kind {
+		case "fresh":
+			return false
+		case "param":
+			mine[idx] = true
+			return true
+		}
+		global = true
+		return true
+	}
 	worse := func(c string) {
 		switch c {
 		case "":
@@ -115,6 +139,7 @@ func (e *EffectSummary) class(fn *ssa.Function, depth int) string {
 				if !localAddr(x.Addr) {
 					if isAppendTo(x.Val, x.Addr) {
 						worse("ordered") // grows a sequence that outlives the call
+						sinkArg(x.Addr)
 					} else {
 						worse("keyed")
 					}
@@ -131,11 +156,35 @@ func (e *EffectSummary) class(fn *ssa.Function, depth int) string {
 					continue
 				}
 				if cc.IsInvoke() {
-					worse(e.invoke(cc.Method))
+					cl := e.invoke(cc.Method)
+					if cl == "ordered" {
+						if !sinkArg(cc.Value) {
+							continue
+						}
+					}
+					worse(cl)
 					continue
 				}
 				if callee := cc.StaticCallee(); callee != nil {
-					worse(e.class(callee, depth+1))
+					cl := e.class(callee, depth+1)
+					if cl == "ordered" {
+						if ps, ok := e.ordParams[callee]; ok {
+							hit := false
+							for i := range ps {
+								if i < len(cc.Args) && sinkArg(cc.Args[i]) {
+									hit = true
+								}
+							}
+							if !hit {
+								// appends only to sinks this function created
+								// itself: nothing outlives the call except its result
+								continue
+							}
+						} else {
+							global = true
+						}
+					}
+					worse(cl)
 					continue
 				}
 				// dynamic call through a function value: unknown
@@ -144,7 +193,199 @@ func (e *EffectSummary) class(fn *ssa.Function, depth int) string {
 		}
 	}
 	e.memo[fn] = res
+	if res == "ordered" && !global {
+		e.setOrdParams(fn, mine)
+	}
 	return res
+}
+
+func (e *EffectSummary) setOrdParams(fn *ssa.Function, ps map[int]bool) {
+	if e.ordParams == nil {
+		e.ordParams = map[*ssa.Function]map[int]bool{}
+	}
+	e.ordParams[fn] = ps
+}
+
+// OrderedArgs returns the argument values of a static call on which the
+// callee has its ordered effects, and ok=false when the callee (also) has an
+// ordered effect on something that is not an argument.
+func (e *EffectSummary) OrderedArgs(call ssa.CallInstruction) ([]ssa.Value, bool) {
+	cc := call.Common()
+	if cc.IsInvoke() {
+		return []ssa.Value{cc.Value}, true
+	}
+	callee := cc.StaticCallee()
+	if callee == nil {
+		return nil, false
+	}
+	e.Class(callee)
+	ps, ok := e.ordParams[callee]
+	if !ok {
+		return nil, false
+	}
+	var out []ssa.Value
+	for i := range ps {
+		if i < len(cc.Args) {
+			out = append(out, cc.Args[i])
+		}
+	}
+	return out, true
+}
+
+// ObjOrigin says where the object v refers to comes from: "fresh" (created in
+// this function: allocations and constructor results into which no foreign
+// reference was stored; creators lists the creating instructions), "param"
+// (reached from parameter idx, receiver = 0), or "" unknown.
+func ObjOrigin(v ssa.Value, depth int) (kind string, idx int, creators []ssa.Instruction) {
+	if depth > 8 {
+		return "", 0, nil
+	}
+	merge := func(k1 string, i1 int, c1 []ssa.Instruction, k2 string, i2 int, c2 []ssa.Instruction) (string, int, []ssa.Instruction) {
+		switch {
+		case k1 == "" || k2 == "":
+			return "", 0, nil
+		case k1 == "fresh" && k2 == "fresh":
+			return "fresh", 0, append(c1, c2...)
+		case k1 == "param" && k2 == "param":
+			if i1 == i2 {
+				return "param", i1, nil
+			}
+			return "", 0, nil
+		case k1 == "param":
+			return "param", i1, nil
+		default:
+			return "param", i2, nil
+		}
+	}
+	switch x := v.(type) {
+	case *ssa.Parameter:
+		for i, p := range x.Parent().Params {
+			if p == x {
+				return "param", i, nil
+			}
+		}
+		return "", 0, nil
+	case *ssa.Const:
+		return "fresh", 0, nil
+	case *ssa.MakeSlice, *ssa.MakeMap:
+		return "fresh", 0, []ssa.Instruction{x.(ssa.Instruction)}
+	case *ssa.Alloc:
+		k, i, c := "fresh", 0, []ssa.Instruction{x}
+		// references stored into the allocation make it an alias holder
+		var scan func(addr ssa.Value, d int)
+		scan = func(addr ssa.Value, d int) {
+			if d > 3 || addr.Referrers() == nil {
+				return
+			}
+			for _, r := range *addr.Referrers() {
+				switch y := r.(type) {
+				case *ssa.Store:
+					if y.Addr == addr && refLike(y.Val.Type()) {
+						k2, i2, c2 := ObjOrigin(y.Val, depth+1)
+						k, i, c = merge(k, i, c, k2, i2, c2)
+					}
+				case *ssa.FieldAddr:
+					scan(y, d+1)
+				case *ssa.IndexAddr:
+					scan(y, d+1)
+				}
+			}
+		}
+		scan(x, 0)
+		return k, i, c
+	case *ssa.Call:
+		if callee := x.Call.StaticCallee(); callee != nil && freshCtors[callee.String()] {
+			return "fresh", 0, []ssa.Instruction{x}
+		}
+		// fluent style: the callee returns one of its parameters
+		if callee := x.Call.StaticCallee(); callee != nil {
+			if i := returnsParam(callee, 0); i >= 0 && i < len(x.Call.Args) {
+				return ObjOrigin(x.Call.Args[i], depth+1)
+			}
+		}
+		return "", 0, nil
+	case *ssa.UnOp:
+		if x.Op == token.MUL {
+			return ObjOrigin(x.X, depth+1)
+		}
+		return "", 0, nil
+	case *ssa.FieldAddr:
+		return ObjOrigin(x.X, depth+1)
+	case *ssa.Field:
+		return ObjOrigin(x.X, depth+1)
+	case *ssa.IndexAddr:
+		return ObjOrigin(x.X, depth+1)
+	case *ssa.MakeInterface:
+		return ObjOrigin(x.X, depth+1)
+	case *ssa.ChangeType:
+		return ObjOrigin(x.X, depth+1)
+	case *ssa.ChangeInterface:
+		return ObjOrigin(x.X, depth+1)
+	case *ssa.Slice:
+		return ObjOrigin(x.X, depth+1)
+	case *ssa.Phi:
+		k, i, c := "fresh", 0, []ssa.Instruction(nil)
+		for _, e := range x.Edges {
+			if e == v {
+				continue
+			}
+			k2, i2, c2 := ObjOrigin(e, depth+1)
+			k, i, c = merge(k, i, c, k2, i2, c2)
+		}
+		return k, i, c
+	}
+	return "", 0, nil
+}
+
+// returnsParam: every return of fn yields (as its only result) the same
+// parameter, directly or through calls that return their own parameter;
+// -1 otherwise.
+func returnsParam(fn *ssa.Function, depth int) int {
+	if fn.Blocks == nil || depth > 4 || fn.Signature.Results().Len() != 1 {
+		return -1
+	}
+	res := -2
+	for _, r := range Returns(fn) {
+		i := -1
+		switch x := r.Results[0].(type) {
+		case *ssa.Parameter:
+			for k, p := range fn.Params {
+				if p == x {
+					i = k
+				}
+			}
+		case *ssa.Call:
+			if callee := x.Call.StaticCallee(); callee != nil {
+				if j := returnsParam(callee, depth+1); j >= 0 && j < len(x.Call.Args) {
+					if p, ok := x.Call.Args[j].(*ssa.Parameter); ok {
+						for k, q := range fn.Params {
+							if q == p {
+								i = k
+							}
+						}
+					}
+				}
+			}
+		}
+		if i < 0 || res != -2 && res != i {
+			return -1
+		}
+		res = i
+	}
+	if res == -2 {
+		return -1
+	}
+	return res
+}
+
+func refLike(t types.Type) bool {
+	switch t.Underlying().(type) {
+	case *types.Pointer, *types.Interface, *types.Slice, *types.Map, *types.Signature, *types.Chan:
+		return true
+	case *types.Struct:
+		return true
+	}
+	return false
 }
 
 // InvokeClass classifies an interface method by name through the tables.
@@ -176,6 +417,27 @@ func (e *EffectSummary) invoke(m *types.Func) string {
 
 // Invoke is the exported form.
 func (e *EffectSummary) Invoke(m *types.Func) string { return e.invoke(m) }
+
+// freshCtors return a new object that nothing else refers to.
+var freshCtors = map[string]bool{
+	RepoMod + "/common.NewZeroCopySink": true, "crypto/sha256.New": true, "bytes.NewBuffer": true, "bytes.NewBufferString": true,
+	"golang.org/x/crypto/ripemd160.New": true, "golang.org/x/crypto/sha3.NewLegacyKeccak256": true, "crypto/sha512.New": true,
+	RepoMod + "/vm/neovm.NewParamsBuilder": true,
+}
+
+// FreshObject: v is an object created in this function (an allocation or the
+// result of a constructor in freshCtors); returns the creating instruction.
+func FreshObject(v ssa.Value) ssa.Instruction {
+	switch x := v.(type) {
+	case *ssa.Alloc:
+		return x
+	case *ssa.Call:
+		if callee := x.Call.StaticCallee(); callee != nil && freshCtors[callee.String()] {
+			return x
+		}
+	}
+	return nil
+}
 
 // localAddr: the address is (derived from) an allocation made in the same
 // function.
